@@ -54,6 +54,17 @@ def cases(tier, seed, args):
         for j, kap in enumerate(grid[::2]):
             out.append(dict(t='density', dist='vmf', D=D, L=[], P=1, seed=int(rng.integers(1 << 30)), cond=1.0,
                             kappa_exp=float(np.log10(kap * (1 + 0.2 * rng.random()))), mean_scale=1.0, layout='C', exact_kappa=True))
+    # evaluation points that are almost, but not exactly, of unit norm (single-precision normalisation, gains 1 +- 4e-6),
+    # close to each other, at high concentration: differences between the points resolve 1e-9 of the value
+    for i in range(6 if q else 24):
+        out.append(dict(t='density', dist='vmf', D=[3, 5, 8][i % 3], L=[[], [2]][i % 2], P=4, seed=int(rng.integers(1 << 30)), cond=1.0,
+                        kappa_exp=float(np.log10([500.0, 300.0, 120.0][i % 3])), mean_scale=1.0, layout='C', exact_kappa=True,
+                        near_unit=['gain', 'single'][(i // 3) % 2]))
+    # spherical / diagonal Gaussians on extreme scales (variance 1e-100 .. 1e100; the condition number stays 1)
+    for i in range(12 if q else 48):
+        out.append(dict(t='density', dist=['gauss_spherical', 'gauss_diagonal'][i % 2], D=[8, 7, 5, 8][(i // 2) % 4], L=[[], [2]][(i // 4) % 2], P=2,
+                        seed=int(rng.integers(1 << 30)), cond=1.0, kappa_exp=0.0, mean_scale=1.0, layout='C',
+                        var_exp=[-39, 39, -60, 60, -100, 100, -45, 45, -20, 20, -30, 30][i % 12]))
     for kap in (0.75, 12.5, 200.0):
         for D in (2, 5, 3, 6, 4):
             for dist in ('watson', 'vmf'):
@@ -86,6 +97,10 @@ def run_case(case):
         if case.get('mean_scale', 1.0) > 1:
             cov = cov * 1e-2
         cov = cov.real
+        if case.get('var_exp') is not None:
+            sd = 10.0 ** (case['var_exp'] / 2.0)
+            cov = cov * sd * sd
+            y = y * sd
         if dist == 'gauss_full':
             obj, e0 = call(Gaussian, mean=mean, covariance=cov)
         elif dist == 'gauss_diagonal':
@@ -153,6 +168,15 @@ def run_case(case):
     if obj is None:
         return [dict(kind='density', dist=dist, exc='construct:' + e0, fp=fp, key=f'den:{case["seed"]}')]
     yy = y if dist not in ('cacg', 'watson', 'vmf', 'bingham') else y * 10.0 ** rng.uniform(-3, 3, size=(*L, P, 1))
+    if case.get('near_unit'):
+        base = ml.unit(rng.normal(size=(*L, 1, D)) + 2.0 * obj.mean[..., None, :])
+        y = ml.unit(base + 1e-4 * rng.normal(size=(*L, P, D)))
+        if case['near_unit'] == 'gain':
+            yy = y * (1.0 + 4e-6 * rng.uniform(-1, 1, size=(*L, P, 1)))
+        else:
+            yy = ml.unit(y.astype(np.float32)).astype(np.float64)      # normalised in single precision
+            y = ml.unit(yy)
+        fp += f';near_unit={case["near_unit"]}'
     if dist == 'bingham':
         yy = ml.unit(y)
     import copy as _copy
@@ -209,6 +233,11 @@ def run_case(case):
             rec['kern'] = [dict(fn='watson_lognorm', idx=1, arg_f=float(obj.concentration[li]), D=D)]
         elif dist == 'vmf':
             rec.update(mean=Z(obj.mean[li]), kappa=enc.flt(obj.concentration[li]), z=Z(z))
+            if case.get('near_unit'):
+                # a second point of the same call: the difference of the two values (formed in double precision) against
+                # the difference of the two directions
+                p2 = (p + 1) % P
+                rec.update(has_pair=True, dlp=enc.flt(float(lp[idx]) - float(lp[(*li, p2)])), dz=Z(z - ml.unit(y[(*li, p2)])))
             rec['kern'] = [dict(fn='vmf_lognorm', idx=1, arg_f=float(obj.concentration[li]), D=D)]
         else:
             U, lam = obj.covariance_eigenvectors[li], obj.covariance_eigenvalues[li]
